@@ -755,6 +755,13 @@ impl Runtime for Rt {
             });
             let need = !tm.has_thread;
             tm.has_thread = true;
+            let tn = s.threads[ME.with(|m| m.get()).unwrap_or(0)].name.clone();
+            let now = s.now;
+            s.steps.push(Step {
+                thread: tn,
+                op: format!("timer-item item{} due={}", id, due),
+                now,
+            });
             (id, need)
         };
         if need_thread {
